@@ -37,6 +37,14 @@ CLAIMED = {
         text="Dist.tla states the built-in log-densities and gradients as exact affine forms / rationals on integer lattices with dyadic scalings; TLC proves on the lattice that each stated gradient is the gradient of the stated log-density (exact finite-difference stencils), symmetry of the proposal density and positivity of the quadratic form, and emits every case; each case is evaluated through every public path (Gaussian2D f32/f64, DiffableGaussian2D batched/single/gradient on both backends with batch sizes 1..64, IsotropicGaussian logp both argument orders/target form/seeded sampling, Rosenbrock2D, RosenbrockND) and compared at f32-level accuracy.",
         note="Trusted: TLC, f64 evaluation of ln(2 pi), ln 2, ln det in harness/src/c15.rs. Values between lattice points are not enumerated (DESIGN section 8).",
         ref="DESIGN.md 4.9, 5/C15", technique="TLC-enumerated lattice cases with exact symbolic oracle and gradient lemmas (Dist.tla) replayed into every public evaluation path"),
+    "C17": dict(
+        text="Export.tla models a save call as one atomic action over a file system of tables of opaque tokens, with the documented axis order of each of the five entry points; TLC checks one-row-per-cell / every-token-once / error-leaves-nothing on all (entry point, shape incl. zero extents, path kind) and emits the expected table; the real save_* functions are called with tokens bound to adversarial values (subnormals, extremes, -0.0, NaN, infinities, integer extremes), the files are read back with the csv/arrow/parquet readers and compared cell by cell, unwritable paths must give Err without panic or leftover file.",
+        note="Trusted: TLC for layout/labels/Ok-Err; the csv, arrow and parquet reader crates and bit-pattern comparison in harness/src/c17.rs for value fidelity.",
+        ref="DESIGN.md 4.9, 5/C17", technique="TLC-enumerated save actions (Export.tla) replayed into the real writers and read back"),
+    "C18": dict(
+        text="InitPos.tla models _init as its draw loop over one seeded stream; TLC checks shape, row-major stream indexing, exact consumption and the prefix property for n,d <= 3 and emits expected stream indices for a grid of sizes up to 256 x 256 and six seed classes incl. u64::MAX; the real init_with_seed / init_det / init are compared entry by entry (bit-equal to the corresponding StandardNormal draw), for purity across repeated calls and threads, seed sensitivity, and init's shape/finiteness/freshness.",
+        note="Trusted: TLC, rand's SmallRng::seed_from_u64 + rand_distr::StandardNormal as the realisation of the abstract stream. 'Standard normal' is decided as stream identity, not statistically.",
+        ref="DESIGN.md 4.9, 5/C18", technique="TLC model check of InitPos.tla + TLC-generated index matrices replayed into the real initialisers"),
 }
 
 PENDING_REASON = "check not built yet in this round (planned: see DESIGN.md section 5); not claimed until its TLC + conformance check exists"
